@@ -4,6 +4,7 @@ from __future__ import annotations
 
 import io
 import os
+from collections import Counter
 import random
 import shutil
 import struct
@@ -79,6 +80,16 @@ def _exc_site(e):
     return site
 
 
+def _exc_file(e):
+    tb = e.__traceback__
+    fn = ""
+    while tb is not None:
+        if "/dulwich/" in tb.tb_frame.f_code.co_filename:
+            fn = tb.tb_frame.f_code.co_filename
+        tb = tb.tb_next
+    return fn
+
+
 def _catch(fn):
     """Run a dulwich call; -> (True, value) or (False, exception).  Only ever wraps code under test."""
     try:
@@ -96,10 +107,16 @@ class Judge:
         self.ctx, self.check, self.case, self.hl = ctx, check, case, hl
         self.tag = check + ("/sha256" if hl == 32 else "")
         self.failed = False
+        self.any_failed = False
 
-    def fail(self, stage, kind, msg):
+    def fail(self, stage, kind, msg, hashless=False):
         self.failed = True
-        self.ctx.fail(f"C02:{self.tag}:{stage}:{kind}", msg, self.check, self.case)
+        self.any_failed = True
+        # the readers are the same whoever wrote the pair: read-stage buckets do not carry the check name
+        tag = ("read" + ("" if hashless else self.tag[len(self.check):])) if stage.startswith("read") else self.tag + ":" + stage
+        if stage.startswith("read"):
+            tag += stage[4:]
+        self.ctx.fail(f"C02:{tag}:{kind}", msg, self.check, self.case)
 
     def exc(self, stage, e, what):
         self.fail(stage, f"{type(e).__name__}@{_exc_site(e)}", f"{what} raised {type(e).__name__}: {str(e)[:300]}")
@@ -186,7 +203,7 @@ def absent_ids(expected, hl, seed):
 # oracle 1+2: the written bytes, judged by the independent reader
 
 
-def judge_bytes(j, pack, idx, expected, idxv, external=None, allow_dups=False):
+def judge_bytes(j, pack, idx, expected, idxv, external=None):
     """-> (entries, stats) or None if the pack itself is unusable."""
     hl = j.hl
     try:
@@ -196,7 +213,7 @@ def judge_bytes(j, pack, idx, expected, idxv, external=None, allow_dups=False):
         return None
     got = ref.mapping_of(entries)
     names = [e.name for e in entries]
-    if len(set(names)) != len(names) and not allow_dups:
+    if len(set(names)) != len(names):
         j.fail("pack", "duplicate-object", f"pack holds {len(names)} entries for {len(set(names))} distinct objects")
     if got != expected:
         missing = [n.hex() for n in expected if n not in got]
@@ -210,6 +227,7 @@ def judge_bytes(j, pack, idx, expected, idxv, external=None, allow_dups=False):
 
 def judge_idx_bytes(j, idx, idxv, entries, trailer):
     hl = j.hl
+    j.failed = False
     try:
         r = ref.read_idx(idx, hl)
     except (ref.FormatError, struct.error) as e:
@@ -221,7 +239,7 @@ def judge_idx_bytes(j, idx, idxv, entries, trailer):
             if idx[:4] == ref.IDX_MAGIC and len(idx) == v2_with_20 and n:
                 kind = "names-are-sha1"
         j.fail("idx", kind, f"independent reader rejects the index dulwich wrote: {e}")
-        return None
+        return False
     if r["version"] != idxv:
         j.fail("idx", "wrong-version", f"asked for v{idxv}, file is v{r['version']}")
     want = sorted((e.name, e.offset, e.crc if r["version"] != 1 else None) for e in entries)
@@ -241,7 +259,7 @@ def judge_idx_bytes(j, idx, idxv, entries, trailer):
         mine = ref.write_idx([(e.name, e.offset, e.crc) for e in entries], trailer, r["version"], hl)
         if mine != idx:
             j.fail("idx", f"not-byte-identical-to-git-v{r['version']}", "index differs from the bytes git index-pack writes for this pack")
-    return r
+    return not j.failed
 
 
 # ---------------------------------------------------------------------------
@@ -257,13 +275,15 @@ def dulwich_read(j, base, expected, entries, idxv, seed, stage="read"):
     ok, p = _catch(lambda: Pack(base, object_format=fmt))
     if not ok:
         return j.exc(stage + ":open", p, "Pack()")
+    with open(base + ".idx", "rb") as f:
+        idx_raw = f.read()
     try:
-        _dulwich_read(j, p, expected, entries, idxv, seed, stage)
+        _dulwich_read(j, p, expected, entries, idxv, seed, stage, idx_raw)
     finally:
         _catch(p.close)
 
 
-def _dulwich_read(j, p, expected, entries, idxv, seed, stage):
+def _dulwich_read(j, p, expected, entries, idxv, seed, stage, idx_raw=None):
     hl = j.hl
     fmt = _fmt(hl)
     n = len(expected)
@@ -297,6 +317,11 @@ def _dulwich_read(j, p, expected, entries, idxv, seed, stage):
     for name in names[:: max(1, n // 8)]:
         ok, o = _catch(lambda: p[name.hex().encode()])
         if not ok:
+            if hl == 32 and expected[name][0] == 2 and "/objects.py" in _exc_file(o):
+                # one root cause whatever parser trips over it (Rust or Python parse_tree, different exception types)
+                j.fail(stage + ":getitem", "sha256-tree-parsed-with-sha1-id-length",
+                       f"pack[{name.hex()}] (a tree in a SHA-256 pack) raised {type(o).__name__}: {str(o)[:200]}")
+                continue
             return j.exc(stage + ":getitem", o, f"pack[{name.hex()}]")
         ok, v = _catch(lambda: (o.type_num, o.as_raw_string()))
         if not ok:
@@ -313,6 +338,16 @@ def _dulwich_read(j, p, expected, entries, idxv, seed, stage):
         ok, v = _catch(lambda: p.get_raw(key))
         if ok or not isinstance(v, KeyError):
             j.fail(stage + ":get_raw-absent", "no-KeyError", f"get_raw of an absent id -> {v!r}"[:300])
+
+    # the bytes that follow the name table, asked for as a name: the lookup must stay inside the table
+    if n and idx_raw is not None:
+        start = {1: 1024 + n * 24 + 4, 2: 8 + 1024 + n * hl, 3: 16 + 1024 + n * hl}[idxv]
+        junk = idx_raw[start : start + hl]
+        if len(junk) == hl and junk not in expected:
+            ok, v = _catch(lambda: junk in p)
+            if not ok or v:
+                j.fail(stage + ":contains-absent", "lookup-reads-one-entry-past-the-name-table",
+                       f"{junk.hex()} (the {hl} bytes after the name table of the idx) in pack -> {v!r}"[:400], hashless=True)
 
     # names by iteration
     ok, v = _catch(lambda: list(p))
@@ -370,8 +405,8 @@ def _dulwich_read(j, p, expected, entries, idxv, seed, stage):
 _repos = {}
 
 
-def _scratch_repo(ctx, hl):
-    key = (os.getpid(), hl)
+def _scratch_repo(ctx, hl, tag="dst"):
+    key = (os.getpid(), hl, tag)
     path = _repos.get(key)
     if path is None or not os.path.isdir(path):
         path = ctx.scratch.new("gitrepo")
@@ -455,30 +490,99 @@ def _clear_loose(repo):
             shutil.rmtree(os.path.join(od, n))
 
 
-def judge_pair(j, ctx, pack, idx, expected, idxv, seed, base=None, git=True, fsck=False, external=None, strict=True, allow_dups=False):
-    """Everything the statement says about one (pack, idx) pair dulwich wrote.  -> stats or None."""
-    r = judge_bytes(j, pack, idx, expected, idxv, external=external, allow_dups=allow_dups)
+def judge_pair(j, ctx, pack, idx, expected, idxv, seed, base=None, git=True, fsck=False, external=None, strict=True, read=True):
+    """Everything the statement says about one (pack, idx) pair dulwich wrote.  -> (entries, stats) or None.
+
+    When only the index is wrong the search continues behind it with the index git would have written, so that
+    one (known) index defect does not hide the read paths.
+    """
+    r = judge_bytes(j, pack, None, expected, idxv, external=external)
     if r is None:
         return None
     entries, st = r
     if j.failed:
-        return st
-    if base is None:
-        base = os.path.join(ctx.scratch.new("pair"), "p")
-        with open(base + ".pack", "wb") as f:
-            f.write(pack)
-        with open(base + ".idx", "wb") as f:
-            f.write(idx)
-        own = True
-    else:
-        own = False
-    if external is None:
+        return r
+    trailer = pack[-j.hl:]
+    idx_ok = idx is not None and judge_idx_bytes(j, idx, idxv, entries, trailer)
+    if not idx_ok:
+        idx = ref.write_idx([(e.name, e.offset, e.crc) for e in entries], trailer, 2, j.hl)
+        idxv = 2
+        base = None
+    j.failed = False
+    if external is None and read:
+        if base is None:
+            base = os.path.join(ctx.scratch.new("pair"), "p")
+            with open(base + ".pack", "wb") as f:
+                f.write(pack)
+            with open(base + ".idx", "wb") as f:
+                f.write(idx)
+            own = True
+        else:
+            own = False
         dulwich_read(j, base, expected, entries, idxv, seed)
-    if own:
-        shutil.rmtree(os.path.dirname(base), ignore_errors=True)
+        if own:
+            shutil.rmtree(os.path.dirname(base), ignore_errors=True)
     if git and not j.failed:
-        git_judge(j, ctx, pack, idx, expected, entries, idxv, fsck=fsck, strict=strict, base_objs=external)
-    return st
+        git_judge(j, ctx, pack, idx if idx_ok else None, expected, entries, idxv, fsck=fsck, strict=strict, base_objs=external)
+    return r
+
+
+# ---------------------------------------------------------------------------
+# shared case plumbing
+
+
+def _objects(case):
+    hl = case["hl"]
+    objs = gen.unique(gen.materialise(case["specs"], hl))
+    order = [objs[i % len(objs)] for i in case.get("order", ())] if objs else []
+    seen = set()
+    seq = []
+    for o in order + objs:  # the drawn permutation first, anything it left out after it
+        if o.name not in seen:
+            seen.add(o.name)
+            seq.append(o)
+    return objs, seq
+
+
+def _case_labels(case, check, seq, st):
+    hl = case.get("hl", 20)
+    idxv = case.get("idxv", 2)
+    labels = [check, f"idx-v{idxv}"]
+    if hl == 32:
+        labels.append("sha256")
+    if not seq:
+        labels.append("empty-set")
+    if any(len(o.data) == 0 and o.type == 3 for o in seq):
+        labels.append("empty-blob")
+    if any(len(o.data) == 0 and o.type == 2 for o in seq):
+        labels.append("empty-tree")
+    if len(case.get("specs", ())) != len(seq):
+        labels.append("duplicated-content-in-spec")
+    if case.get("level") is not None:
+        labels.append(f"level={case['level']}")
+    if st is not None:
+        labels += stat_labels(st)
+    return labels
+
+
+def _nontrivial(case, seq, st, extra=False):
+    if len(seq) < 2 or st is None:
+        return False
+    return bool(st["ndelta"] or st["depth"] >= 3 or st["boundary"] or st["split"] or case.get("idxv", 2) in (1, 3) or case.get("hl") == 32 or extra)
+
+
+def _sample(case):
+    s = dict(case)
+    if "specs" in s:
+        s["specs"] = [str(x)[:80] for x in s["specs"][:5]] + ([f"...<{len(s['specs'])} specs>"] if len(s["specs"]) > 5 else [])
+    for k in ("order", "plan", "mask", "haves", "where", "entries"):
+        if k in s and isinstance(s[k], list):
+            s[k] = s[k][:10]
+    return s
+
+
+def _key(case):
+    return repr(sorted(case.items()))
 
 
 # ---------------------------------------------------------------------------
@@ -491,118 +595,87 @@ def run_write(ctx, case, check="write"):
     hl = case["hl"]
     fmt = _fmt(hl)
     j = Judge(ctx, check, case, hl)
-    objs = gen.unique(gen.materialise(case["specs"], hl))
-    order = [objs[i % len(objs)] for i in case["order"]] if objs else []
-    seen = set()
-    seq = []
-    for o in order + objs:  # the permutation first, anything it left out after it
-        if o.name not in seen:
-            seen.add(o.name)
-            seq.append(o)
+    objs, seq = _objects(case)
     dup = case.get("dup")
     if dup is not None and seq:
         seq = seq + [seq[dup % len(seq)]]
     expected = {o.name: (o.type, o.data) for o in seq}
     sf = [_shafile(o, hl) for o in seq]
     hints = case.get("hints")
-    if hints is not None:
-        arg = [(s, hints[k % len(hints)]) for k, s in enumerate(sf)]
-    else:
-        arg = sf
+    arg = [(s, hints[k % len(hints)]) for k, s in enumerate(sf)] if hints is not None else sf
     kw = dict(deltify=case["deltify"], delta_window_size=case["window"], compression_level=case["level"])
     idxv = case["idxv"]
     d = ctx.scratch.new("w")
     base = os.path.join(d, "p")
+    st = None
+    labels = []
     try:
         if case["entry"] == "write_pack":
-            idxv = 2
             ok, v = _catch(lambda: write_pack(base, arg, fmt, **kw))
             if not ok:
                 j.exc("write", v, "write_pack")
-                return _account(ctx, case, check, seq, None, dup)
-            with open(base + ".pack", "rb") as f:
-                pack = f.read()
-            with open(base + ".idx", "rb") as f:
-                idx = f.read()
-            if v[0] != pack[-hl:] or v[1] != idx[-hl:]:
-                j.fail("write", "returned-checksums-wrong", "write_pack returns checksums that are not the trailers of the files")
+            else:
+                with open(base + ".pack", "rb") as f:
+                    pack = f.read()
+                with open(base + ".idx", "rb") as f:
+                    idx = f.read()
+                if v[0] != pack[-hl:] or v[1] != idx[-hl:]:
+                    j.fail("write", "returned-checksums-wrong", "write_pack returns checksums that are not the trailers of the files")
         else:
             buf = io.BytesIO()
             ok, v = _catch(lambda: write_pack_objects(buf.write, arg, fmt, **kw))
             if not ok:
                 j.exc("write", v, "write_pack_objects")
-                return _account(ctx, case, check, seq, None, dup)
-            entries, csum = v
-            pack = buf.getvalue()
-            ibuf = io.BytesIO()
-            ok, v = _catch(lambda: write_pack_index(ibuf, sorted((k, e[0], e[1]) for k, e in entries.items()), csum, version=idxv))
-            if not ok:
-                j.exc("write-index", v, f"write_pack_index(version={idxv})")
-                return _account(ctx, case, check, seq, None, dup)
-            idx = ibuf.getvalue()
-            if csum != pack[-hl:] or v != idx[-hl:]:
-                j.fail("write", "returned-checksums-wrong", "returned checksums are not the trailers of the written data")
-            with open(base + ".pack", "wb") as f:
-                f.write(pack)
-            with open(base + ".idx", "wb") as f:
-                f.write(idx)
-        if dup is not None and seq:
-            # not a set: observe and report only
-            ok, v = _catch(lambda: _reopen_len(base, fmt))
-            ctx.label("duplicate-input:" + ("dulwich-reopens" if ok else f"dulwich-refuses-own-pack:{type(v).__name__}"))
-            return _account(ctx, case, check, seq, None, dup)
-        st = judge_pair(j, ctx, pack, idx, expected, idxv, case["seed"], base=base, git=True, fsck=case.get("fsck", False))
-        return _account(ctx, case, check, seq, st, dup)
+            else:
+                entries, csum = v
+                pack = buf.getvalue()
+                ibuf = io.BytesIO()
+                ok, v = _catch(lambda: write_pack_index(ibuf, sorted((k, e[0], e[1]) for k, e in entries.items()), csum, version=idxv))
+                if not ok:
+                    j.exc("write-index", v, f"write_pack_index(version={idxv})")
+                else:
+                    idx = ibuf.getvalue()
+                    if csum != pack[-hl:] or v != idx[-hl:]:
+                        j.fail("write", "returned-checksums-wrong", "returned checksums are not the trailers of the written data")
+                    with open(base + ".pack", "wb") as f:
+                        f.write(pack)
+                    with open(base + ".idx", "wb") as f:
+                        f.write(idx)
+        if ok and dup is not None and seq:
+            # a sequence with a repeated object is not a set: observe and report, never alarm
+            ok2, v = _catch(lambda: _reopen_len(base, fmt))
+            labels += ["duplicate-input", "duplicate-input:" + ("dulwich-reopens-it" if ok2 else f"dulwich-refuses-own-pack({type(v).__name__})")]
+            rc, _, _ = cgit.git(["index-pack", "-o", base + ".gitidx", base + ".pack"] + (["--object-format=sha256"] if hl == 32 else []), check=False)
+            labels.append("duplicate-input:" + ("git-accepts" if rc == 0 else "git-rejects"))
+        elif ok:
+            r = judge_pair(j, ctx, pack, idx, expected, idxv, case["seed"], base=base, git=True, fsck=case.get("fsck", False))
+            st = r[1] if r else None
     finally:
         shutil.rmtree(d, ignore_errors=True)
+    labels += _case_labels(case, check, seq, st) + [check + ":" + case["entry"]]
+    if case["deltify"]:
+        labels.append("deltify")
+    if hints is not None:
+        labels.append("path-hints:" + ("mixed" if len(set(hints)) > 1 else "uniform"))
+    nt = _nontrivial(case, seq, st) and dup is None
+    ctx.case(_key(case), nontrivial=nt, labels=labels, sample=_sample(case) if nt else None)
 
 
 def _reopen_len(base, fmt):
     from dulwich.pack import Pack
 
     with Pack(base, object_format=fmt) as p:
-        len(p.data)
         p.check_length_and_checksum()
         return len(p)
 
 
-def _account(ctx, case, check, seq, st, dup=None, extra_labels=()):
-    labels = [check]
-    hl = case.get("hl", 20)
-    idxv = case.get("idxv", 2)
-    n = len(seq)
-    nt = False
-    if dup is not None:
-        labels.append("duplicate-input")
-    if n == 0:
-        labels.append("empty-set")
-    if hl == 32:
-        labels.append("sha256")
-    labels.append(f"idx-v{idxv}")
-    if case.get("deltify"):
-        labels.append("deltify")
-    if case.get("level") is not None:
-        labels.append(f"level={case['level']}")
-    if any(len(o.data) == 0 for o in seq):
-        labels.append("empty-blob" if any(len(o.data) == 0 and o.type == 3 for o in seq) else "empty-object")
-    if len(case.get("specs", ())) != n and dup is None:
-        labels.append("duplicated-content-in-spec")
-    if st is not None:
-        labels += stat_labels(st)
-        nt = n >= 2 and (st["ndelta"] > 0 or st["depth"] >= 3 or st["boundary"] or st["split"] or idxv in (1, 3) or hl == 32)
-    labels += list(extra_labels)
-    if "large-offset" in labels or "git-depth>=10" in labels:
-        nt = nt or n >= 2
-    ctx.case(repr(sorted(case.items())), nontrivial=nt, labels=labels, sample=_sample(case) if nt else None)
+def _perm(st, draw, n):
+    n = max(1, n)
+    return list(draw(st.one_of(st.just(list(range(n))), st.just(list(range(n - 1, -1, -1))), st.permutations(list(range(n))))))
 
 
-def _sample(case):
-    s = dict(case)
-    if "specs" in s:
-        s["specs"] = [str(x)[:80] for x in s["specs"][:6]] + ([f"...<{len(s['specs'])} specs>"] if len(s["specs"]) > 6 else [])
-    if "order" in s:
-        s["order"] = s["order"][:12]
-    return s
+def _level(st, draw):
+    return draw(st.sampled_from([-1, -1, 0, 1, 9, draw(st.integers(2, 8))]))
 
 
 def write_strategy():
@@ -614,28 +687,737 @@ def write_strategy():
         hl = draw(st.sampled_from([20, 20, 20, 20, 32]))
         deltify = draw(st.sampled_from([False, True, True, None]))
         if deltify:
-            specs = draw(S["specs"](max_objs=12, max_blob=8192, min_objs=1))
+            specs = draw(S["specs"](profile=draw(st.sampled_from(["deltify", "deltify", "deltify1"])), max_objs=12))
         else:
-            specs = draw(S["specs"](max_objs=40, max_blob=65537, huge=draw(st.integers(0, 5)) == 0, family_bias=False))
-        n = max(1, len(specs))
-        order = draw(st.one_of(st.just(list(range(n))), st.just(list(range(n - 1, -1, -1))), st.permutations(list(range(n)))))
+            specs = draw(S["specs"](profile="plain", max_objs=40, huge=draw(st.integers(0, 7)) == 0)) if draw(st.integers(0, 19)) else []
         entry = draw(st.sampled_from(["write_pack", "write_pack_objects", "write_pack_objects"]))
         idxv = 2 if hl == 32 or entry == "write_pack" else draw(st.sampled_from([1, 2, 3]))
-        hints = draw(st.sampled_from([None, None, "same", "mixed"]))
+        # mixed None/bytes hints only with SHA-1: the (known) failure they provoke does not depend on the hash
+        hints = draw(st.sampled_from([None, None, None, "same", "same", "mixed" if hl == 20 else "same"]))
         if hints == "same":
             hints = [draw(st.sampled_from([None, b"a", b"dir/b"]))]
         elif hints == "mixed":
             hints = draw(st.lists(st.sampled_from([None, b"a", b"b", b"dir/c"]), min_size=2, max_size=4))
         c = dict(
-            hl=hl, specs=specs, order=list(order), entry=entry, deltify=deltify,
-            window=draw(st.sampled_from([None, None, 0, 1, 2, 10])),
-            level=draw(st.sampled_from([-1, -1, 0, 1, 9, draw(st.integers(2, 8))])),
-            idxv=idxv, hints=hints, seed=draw(st.integers(0, 1 << 16)),
-            fsck=draw(st.integers(0, 7)) == 0,
+            hl=hl, specs=specs, order=_perm(st, draw, len(specs)), entry=entry, deltify=deltify,
+            window=draw(st.sampled_from([None, None, 0, 1, 2, 10])), level=_level(st, draw),
+            idxv=idxv, hints=hints, seed=draw(st.integers(0, 1 << 16)), fsck=draw(st.integers(0, 7)) == 0,
         )
         if draw(st.integers(0, 24)) == 0:
             c["dup"] = draw(st.integers(0, 40))
         return c
+
+    return case()
+
+
+# ---------------------------------------------------------------------------
+# check "records": write_pack_data over hand-built UnpackedObjects; check "store": the same through a DiskObjectStore
+
+
+def _delta_plan(case, objs):
+    """{name: (base Obj, delta bytes)} — bases always have a smaller spec index, so the plan is acyclic."""
+    specs = case["specs"]
+    plan = case["plan"]
+    by_spec = {}
+    for o in objs:
+        by_spec[o.spec_index] = o
+    # a spec dropped as duplicate stands for the first object with that content
+    mat = gen.materialise(specs, case["hl"])
+    first = {}
+    for o in objs:
+        first[o.name] = o
+    out = {}
+    for o in objs:
+        k = o.spec_index
+        choice = plan[k % len(plan)] if plan else 0
+        if choice == 0 or len(o.data) == 0:
+            continue
+        s = specs[k]
+        base = None
+        use_ops = None
+        if choice in (1, 3) and s[0] in ("E", "D"):
+            base = first[mat[s[1]].name]
+            if s[0] == "D":
+                use_ops = gen.norm_ops(len(base.data), s[2])
+        if base is None:
+            cands = [b for b in objs if b.spec_index < k and b.type == o.type]
+            if not cands:
+                continue
+            base = cands[(choice * 7 + k) % len(cands)] if choice >= 2 else cands[-1]
+        if base.name == o.name or base.type != o.type or base.spec_index >= k:
+            continue
+        if use_ops is not None:
+            delta, target = ref.make_delta(base.data, use_ops)
+            if target != o.data:
+                raise HarnessError("D-spec delta does not rebuild its own object")
+        else:
+            delta = gen.simple_delta(base.data, o.data)
+        out[o.name] = (base, delta)
+    return out
+
+
+def _records(case, seq, plan, hl):
+    from dulwich.pack import UnpackedObject
+
+    fmt = _fmt(hl)
+    recs = []
+    for k, o in enumerate(seq):
+        if o.name in plan:
+            base, delta = plan[o.name]
+            cut = case.get("cut", 0) % (len(delta) + 1)
+            chunks = [delta[:cut], delta[cut:]] if cut else [delta]
+            # both conventions found in dulwich itself: deltas_from_sorted_objects passes the object's type,
+            # Pack.iter_unpacked_subset(convert_ofs_delta=True) passes REF_DELTA
+            t = o.type if case["conv"] == "obj" else 7
+            recs.append(UnpackedObject(t, sha=o.name, delta_base=base.name, decomp_chunks=chunks, hash_func=fmt.hash_func))
+        else:
+            cut = case.get("cut", 0) % (len(o.data) + 1)
+            chunks = [o.data[:cut], o.data[cut:]] if cut else [o.data]
+            recs.append(UnpackedObject(o.type, sha=o.name, decomp_chunks=chunks, hash_func=fmt.hash_func))
+    return recs
+
+
+def run_records(ctx, case, check="records"):
+    from dulwich.pack import write_pack_data, write_pack_index
+
+    hl = case["hl"]
+    fmt = _fmt(hl)
+    j = Judge(ctx, check, case, hl)
+    objs, seq = _objects(case)
+    expected = {o.name: (o.type, o.data) for o in seq}
+    plan = _delta_plan(case, objs)
+    recs = _records(case, seq, plan, hl)
+    idxv = case["idxv"]
+    buf = io.BytesIO()
+    if case["how"] == "list":
+        ok, v = _catch(lambda: write_pack_data(buf.write, recs, fmt, compression_level=case["level"]))
+    elif case["how"] == "file":
+        ok, v = _catch(lambda: write_pack_data(buf, iter(recs), fmt, num_records=len(recs), compression_level=case["level"]))
+    else:
+        ok, v = _catch(lambda: write_pack_data(buf.write, iter(recs), fmt, num_records=len(recs), compression_level=case["level"]))
+    st = None
+    if not ok:
+        j.exc("write", v, "write_pack_data")
+    else:
+        entries, csum = v
+        pack = buf.getvalue()
+        ibuf = io.BytesIO()
+        ok, v = _catch(lambda: write_pack_index(ibuf, sorted((k, e[0], e[1]) for k, e in entries.items()), csum, version=idxv))
+        if not ok:
+            j.exc("write-index", v, f"write_pack_index(version={idxv})")
+        else:
+            idx = ibuf.getvalue()
+            if csum != pack[-hl:] or v != idx[-hl:]:
+                j.fail("write", "returned-checksums-wrong", "returned checksums are not the trailers of the written data")
+            r = judge_pair(j, ctx, pack, idx, expected, idxv, case["seed"], git=True, fsck=case.get("fsck", False))
+            st = r[1] if r else None
+            if r and st["ndelta"] != len(plan):
+                j.fail("write", "delta-records-not-written-as-deltas", f"{len(plan)} delta records given, {st['ndelta']} delta entries in the pack")
+    labels = _case_labels(case, check, seq, st) + [f"{check}:conv={case['conv']}", f"{check}:{case['how']}"]
+    nt = _nontrivial(case, seq, st)
+    ctx.case(_key(case), nontrivial=nt, labels=labels, sample=_sample(case) if nt else None)
+
+
+def records_strategy(store=False):
+    S = gen.strategies()
+    st = S["st"]
+
+    @st.composite
+    def case(draw):
+        hl = draw(st.sampled_from([20, 20, 20, 32]))
+        specs = draw(S["specs"](profile="hand", max_objs=draw(st.sampled_from([6, 14, 30])), huge=draw(st.integers(0, 9)) == 0))
+        c = dict(
+            hl=hl, specs=specs, order=_perm(st, draw, len(specs)),
+            plan=draw(st.lists(st.sampled_from([0, 1, 1, 1, 2, 3]), min_size=1, max_size=12)),
+            conv=draw(st.sampled_from(["obj", "ref"])), cut=draw(st.sampled_from([0, 0, 1, 5, 1000])),
+            level=_level(st, draw), seed=draw(st.integers(0, 1 << 16)),
+        )
+        if store:
+            c["entry"] = draw(st.sampled_from(["add_objects", "add_pack_data", "add_pack_data"]))
+            c["idxv"] = 2 if hl == 32 else draw(st.sampled_from([None, 1, 2, 3]))
+        else:
+            c["how"] = draw(st.sampled_from(["iter", "iter", "list", "file"]))
+            c["idxv"] = 2 if hl == 32 else draw(st.sampled_from([1, 2, 3]))
+            c["fsck"] = draw(st.integers(0, 7)) == 0
+        return c
+
+    return case()
+
+
+def _pack_files(pack_dir):
+    names = sorted(os.listdir(pack_dir))
+    packs = [n for n in names if n.endswith(".pack")]
+    idxs = [n for n in names if n.endswith(".idx")]
+    other = [n for n in names if n not in packs and n not in idxs]
+    return packs, idxs, other
+
+
+def _judge_store_result(j, ctx, store, path, expected, idxv, seed, n_before=0, external_ok=None, strict=True):
+    """The store must hold exactly one new self-contained pack + idx; -> (entries, stats) or None."""
+    pd = os.path.join(path, "pack")
+    packs, idxs, other = _pack_files(pd)
+    if other:
+        j.fail("store", "stray-files-in-pack-dir", f"left behind: {other[:3]}")
+    if len(packs) != n_before + 1 or len(idxs) != n_before + 1:
+        j.fail("store", "not-one-new-pack", f"pack dir has {len(packs)} packs / {len(idxs)} indexes, expected {n_before + 1}")
+        return None
+    new = [p for p in packs if p not in (external_ok or ())]
+    if len(new) != 1 or new[0][:-5] + ".idx" not in idxs:
+        j.fail("store", "pack-without-matching-idx", f"{packs} / {idxs}")
+        return None
+    base = os.path.join(pd, new[0][:-5])
+    with open(base + ".pack", "rb") as f:
+        pack = f.read()
+    with open(base + ".idx", "rb") as f:
+        idx = f.read()
+    r = judge_pair(j, ctx, pack, idx, expected, idxv, seed, base=base, git=True, strict=strict)
+    # and through the store API
+    for name in sorted(expected)[:: max(1, len(expected) // 10)]:
+        hexid = name.hex().encode()
+        ok, v = _catch(lambda: (store.contains_packed(hexid), store.get_raw(hexid)))
+        if not ok:
+            j.exc("store:get_raw", v, f"store.get_raw({name.hex()})")
+            break
+        if not v[0] or (v[1][0], bytes(v[1][1])) != expected[name]:
+            j.fail("store:get_raw", "wrong", f"store does not return {name.hex()} as written (contains_packed={v[0]})")
+            break
+    return r
+
+
+def run_store(ctx, case, check="store"):
+    from dulwich.object_store import DiskObjectStore
+
+    hl = case["hl"]
+    fmt = _fmt(hl)
+    j = Judge(ctx, check, case, hl)
+    objs, seq = _objects(case)
+    expected = {o.name: (o.type, o.data) for o in seq}
+    d = ctx.scratch.new("store")
+    path = os.path.join(d, "objects")
+    st = None
+    labels = []
+    try:
+        DiskObjectStore.init(path, object_format=fmt).close()
+        kw = dict(pack_compression_level=case["level"], object_format=fmt)
+        if case["idxv"] is not None:
+            kw["pack_index_version"] = case["idxv"]
+        store = DiskObjectStore(path, **kw)
+        try:
+            if case["entry"] == "add_objects":
+                arg = [(_shafile(o, hl), None) for o in seq]
+                ok, v = _catch(lambda: store.add_objects(arg))
+                nplan = 0
+            else:
+                plan = _delta_plan(case, objs)
+                nplan = len(plan)
+                recs = _records(case, seq, plan, hl)
+                ok, v = _catch(lambda: store.add_pack_data(len(recs), iter(recs)))
+            if not ok:
+                j.exc("write", v, case["entry"])
+            elif not seq:
+                packs, idxs, other = _pack_files(os.path.join(path, "pack"))
+                if v is not None or packs or idxs or other:
+                    j.fail("store", "empty-set-left-files", f"adding nothing returned {v!r}, pack dir: {packs + idxs + other}")
+                labels.append("empty-set")
+            else:
+                r = _judge_store_result(j, ctx, store, path, expected, case["idxv"] or 2, case["seed"])
+                st = r[1] if r else None
+                if r and st["ndelta"] != nplan:
+                    j.fail("write", "delta-records-not-written-as-deltas", f"{nplan} delta records given, {st['ndelta']} delta entries in the pack")
+        finally:
+            _catch(store.close)
+    finally:
+        shutil.rmtree(d, ignore_errors=True)
+    c2 = dict(case, idxv=case["idxv"] or 2)
+    labels += _case_labels(c2, check, seq, st) + [f"{check}:{case['entry']}"] + (["store:default-idx-version"] if case["idxv"] is None else [])
+    nt = _nontrivial(c2, seq, st)
+    ctx.case(_key(case), nontrivial=nt, labels=labels, sample=_sample(case) if nt else None)
+
+
+# ---------------------------------------------------------------------------
+# packs made by C git
+
+
+def _git_source(ctx, hl, objs):
+    """A bare repository holding ``objs`` as loose objects (one git process)."""
+    repo = _scratch_repo(ctx, hl, "src")
+    _clear_loose(repo)
+    if objs:
+        cgit.git(["unpack-objects", "-q"], cwd=repo, input=packfmt.build_pack([(o.type, o.data, None) for o in objs], ref.ALGO[hl]))
+    return repo
+
+
+def _git_pack(ctx, case, objs, subset=None):
+    """-> (pack bytes, expected mapping, external mapping or None)."""
+    hl = case["hl"]
+    repo = _git_source(ctx, hl, objs)
+    g = case["git"]
+    args = ["pack-objects", "--stdout", "-q", f"--depth={g['depth']}", f"--window={g['window']}"]
+    if g["ofs"]:
+        args.append("--delta-base-offset")
+    by_spec = {o.spec_index: o for o in objs}
+    mat = gen.materialise(case["specs"], hl)
+    thin = g.get("thin")
+    if thin:
+        new = mat[thin[0]].name.hex().encode()
+        old = [mat[k].name.hex().encode() for k in thin[1]]
+        args += ["--thin", "--revs"]
+        inp = new + b"\n" + b"".join(b"^" + o + b"\n" for o in old)
+    else:
+        fam = {}
+        for k, s in enumerate(case["specs"]):
+            fam[k] = fam.get(s[1], s[1]) if s[0] in ("E", "D") else k
+        lines = []
+        for o in subset if subset is not None else objs:
+            lines.append(o.name.hex().encode() + b" f%d\n" % fam[o.spec_index])
+        inp = b"".join(lines)
+    pack = cgit.out(args, cwd=repo, input=inp)
+    allmap = {o.name: (o.type, o.data) for o in objs}
+    try:
+        entries, _ = ref.read_pack(pack, hl, allmap if thin else None)
+    except ref.FormatError as e:
+        raise HarnessError(f"independent reader cannot read a pack made by git: {e}")
+    got = ref.mapping_of(entries)
+    for n, v in got.items():
+        if allmap.get(n) != v:
+            raise HarnessError("git-made pack holds an object that was not generated")
+    if not thin and set(got) != {o.name for o in (subset if subset is not None else objs)}:
+        raise HarnessError("git pack-objects did not pack exactly the requested objects")
+    ext = None
+    if thin:
+        ext = {e.base: allmap[e.base] for e in entries if e.pack_type == 7 and e.base not in got}
+    return pack, got, ext, entries
+
+
+class _Wire:
+    """read_all / read_some over bytes with drawn short reads (the way a socket delivers a pack)."""
+
+    def __init__(self, data, pattern):
+        self.f = io.BytesIO(data)
+        self.pattern = pattern or [1 << 30]
+        self.k = 0
+
+    def read_all(self, n):
+        return self.f.read(n)
+
+    def read_some(self, n):
+        lim = self.pattern[self.k % len(self.pattern)]
+        self.k += 1
+        return self.f.read(max(1, min(n, lim)))
+
+
+def run_gitpack(ctx, case, check="gitpack"):
+    from dulwich.object_store import DiskObjectStore
+    from dulwich.pack import PackData
+
+    hl = case["hl"]
+    fmt = _fmt(hl)
+    j = Judge(ctx, check, case, hl)
+    objs, seq = _objects(case)
+    pack, expected, ext, gentries = _git_pack(ctx, case, objs)
+    gst = delta_stats(gentries)
+    reader = case["reader"]
+    if ext is not None and reader != "add_thin_pack":
+        reader = "add_thin_pack"
+    d = ctx.scratch.new("gp")
+    st = gst
+    labels = [f"{check}:reader={reader}"]
+    if ext:
+        labels.append("thin-pack-with-external-bases")
+    try:
+        base = os.path.join(d, "p")
+        with open(base + ".pack", "wb") as f:
+            f.write(pack)
+        idxv = case["idxv"]
+        if reader == "git-idx":
+            v = idxv if idxv in (1, 2) else 2
+            idxv = v
+            cgit.git(["index-pack", f"--index-version={v}"] + (["--object-format=sha256"] if hl == 32 else []) + ["-o", base + ".idx", base + ".pack"])
+            dulwich_read(j, base, expected, gentries, v, case["seed"])
+        elif reader == "create_index":
+            def mk():
+                with PackData(base + ".pack", object_format=fmt) as pdata:
+                    return pdata.create_index(base + ".idx", version=idxv, **({"hash_format": 1} if idxv == 3 else {}))
+            ok, v = _catch(mk)
+            if not ok:
+                j.exc("create_index", v, f"PackData.create_index(version={idxv})")
+            else:
+                with open(base + ".idx", "rb") as f:
+                    idx = f.read()
+                if judge_idx_bytes(j, idx, idxv, gentries, pack[-hl:]):
+                    dulwich_read(j, base, expected, gentries, idxv, case["seed"])
+        else:
+            path = os.path.join(d, "objects")
+            DiskObjectStore.init(path, object_format=fmt).close()
+            kw = dict(object_format=fmt)
+            if idxv in (1, 2, 3) and hl == 20:
+                kw["pack_index_version"] = idxv
+            else:
+                idxv = 2
+            store = DiskObjectStore(path, **kw)
+            try:
+                n_before = 0
+                pre = ()
+                if ext:
+                    # the receiver already has the bases: loose, or in a pack of its own
+                    bases = [(n, t, data) for n, (t, data) in sorted(ext.items())]
+                    from dulwich.objects import ShaFile
+                    sfs = [ShaFile.from_raw_string(t, data) if hl == 20 else ShaFile.from_raw_string(t, data, object_format=fmt) for _, t, data in bases]
+                    if case.get("bases") == "packed":
+                        store.add_objects([(s, None) for s in sfs])
+                        n_before = 1
+                        pre = tuple(_pack_files(os.path.join(path, "pack"))[0])
+                    else:
+                        for s in sfs:
+                            store.add_object(s)
+                if reader == "add_pack":
+                    def go():
+                        f, commit, abort = store.add_pack()
+                        try:
+                            w = _Wire(pack, case.get("chunks"))
+                            while True:
+                                b = w.read_some(1 << 20)
+                                if not b:
+                                    break
+                                f.write(b)
+                        except BaseException:
+                            abort()
+                            raise
+                        return commit()
+                    ok, v = _catch(go)
+                else:
+                    w = _Wire(pack, case.get("chunks"))
+                    ok, v = _catch(lambda: store.add_thin_pack(w.read_all, w.read_some))
+                if not ok:
+                    j.exc(reader, v, reader)
+                elif not expected:
+                    labels.append("empty-set")
+                else:
+                    want = dict(expected)
+                    if ext:
+                        want.update(ext)  # a completed thin pack carries its bases
+                    r = _judge_store_result(j, ctx, store, path, want, idxv, case["seed"], n_before=n_before, external_ok=pre, strict=False)
+                    if r and not ext and not j.any_failed:
+                        packs = [p for p in _pack_files(os.path.join(path, "pack"))[0]]
+                        with open(os.path.join(path, "pack", packs[0]), "rb") as f:
+                            if f.read() != pack:
+                                j.fail(reader, "pack-bytes-changed", "a self-contained pack was not stored verbatim")
+            finally:
+                _catch(store.close)
+    finally:
+        shutil.rmtree(d, ignore_errors=True)
+    c2 = dict(case, idxv=idxv)
+    labels += _case_labels(c2, check, [o for o in objs if o.name in expected], None) + stat_labels(gst, "git-")
+    if gst["depth"] >= 10:
+        labels.append("git-depth>=10")
+    if gst["depth"] >= 40:
+        labels.append("git-depth>=40")
+    if case["git"].get("thin"):
+        labels.append("git---thin")
+    labels.append("git-ofs" if case["git"]["ofs"] else "git-no-ofs")
+    nt = len(expected) >= 2 and bool(gst["ndelta"] or gst["boundary"] or idxv in (1, 3) or hl == 32)
+    ctx.case(_key(case), nontrivial=nt, labels=labels, sample=_sample(case) if nt and gst["depth"] >= 3 else None)
+
+
+def _git_opts(st, draw, deep=False):
+    # deep: a small window leaves git no choice but the predecessor as base, so chains really get long
+    return dict(depth=50 if deep else draw(st.sampled_from([0, 1, 2, 5, 10, 50])), window=draw(st.sampled_from([1, 2, 10, 10, 20] if not deep else [2, 3, 5])),
+                ofs=draw(st.booleans()))
+
+
+def gitpack_strategy():
+    S = gen.strategies()
+    st = S["st"]
+
+    @st.composite
+    def case(draw):
+        hl = draw(st.sampled_from([20, 20, 20, 32]))
+        deep = draw(st.integers(0, 3)) == 0
+        if deep:
+            # one chain of n growing versions (sizes strictly increase: git then builds chains of depth ~n/5, up to --depth=50)
+            n = draw(st.sampled_from([60, 120, 250]))
+            edits = draw(st.lists(st.tuples(st.integers(0, 1000), st.binary(min_size=1, max_size=24)), min_size=n, max_size=n))
+            specs = [("P", draw(st.integers(0, 5)), draw(st.sampled_from([300, 1000])))] + [("E", k, pm, 0, ins) for k, (pm, ins) in enumerate(edits)]
+            specs += [("T", [("f", b"f", len(specs) - 1), ("f", b"g", 0)]), ("C", len(specs), [], b"deep\n")]
+        else:
+            specs = list(draw(S["specs"](profile="git", max_objs=draw(st.sampled_from([8, 20, 40])))))
+        g = _git_opts(st, draw, deep)
+        reader = draw(st.sampled_from(["git-idx", "create_index", "add_pack", "add_thin_pack"]))
+        thin = draw(st.integers(0, 3)) == 0 and not deep
+        if thin:
+            # two commits: the old one holds the first version of every family, the new one the last
+            roots = [k for k, s in enumerate(specs) if s[0] in ("P", "R", "B")][:6]
+            last = {}
+            for k, s in enumerate(specs):
+                if s[0] == "E":
+                    r = s[1]
+                    while specs[r][0] == "E":
+                        r = specs[r][1]
+                    last[r] = k
+            if roots:
+                specs.append(("T", [("f", b"f%d" % r, r) for r in roots]))
+                specs.append(("C", len(specs) - 1, [], b"old\n"))
+                old = len(specs) - 1
+                specs.append(("T", [("f", b"f%d" % r, last.get(r, r)) for r in roots] + [("f", b"new", roots[0])]))
+                specs.append(("C", len(specs) - 1, [old], b"new\n"))
+                g["thin"] = (len(specs) - 1, [old])
+                reader = "add_thin_pack"
+        return dict(
+            hl=hl, specs=specs, git=g, reader=reader, idxv=2 if hl == 32 else draw(st.sampled_from([1, 2, 3])),
+            chunks=draw(st.one_of(st.none(), st.lists(st.sampled_from([1, 2, 7, 19, 20, 21, 100, 4096, 65536]), min_size=1, max_size=5))),
+            bases=draw(st.sampled_from(["loose", "packed"])), seed=draw(st.integers(0, 1 << 16)),
+        )
+
+    return case()
+
+
+# ---------------------------------------------------------------------------
+# check "reuse": write_pack_from_container over a store that holds git-made delta packs
+
+
+def run_reuse(ctx, case, check="reuse"):
+    from dulwich.object_store import DiskObjectStore
+    from dulwich.pack import write_pack_from_container, write_pack_index
+
+    hl = case["hl"]
+    fmt = _fmt(hl)
+    j = Judge(ctx, check, case, hl)
+    objs, seq = _objects(case)
+    where = case["where"]
+    groups = {0: [], 1: [], 2: []}
+    for o in objs:
+        groups[where[o.spec_index % len(where)]].append(o)
+    d = ctx.scratch.new("reuse")
+    path = os.path.join(d, "objects")
+    st = None
+    labels = []
+    sub = []
+    try:
+        DiskObjectStore.init(path, object_format=fmt).close()
+        src_stats = []
+        for gk in (0, 1):
+            if not groups[gk]:
+                continue
+            pack, got, _, gentries = _git_pack(ctx, case, objs, subset=groups[gk])
+            src_stats.append(delta_stats(gentries))
+            base = os.path.join(path, "pack", "pack-%040d" % gk)
+            with open(base + ".pack", "wb") as f:
+                f.write(pack)
+            cgit.git(["index-pack"] + (["--object-format=sha256"] if hl == 32 else []) + ["-o", base + ".idx", base + ".pack"])
+        store = DiskObjectStore(path, object_format=fmt)
+        try:
+            for o in groups[2]:
+                store.add_object(_shafile(o, hl))
+            mask = case["mask"]
+            sub = [o for o in seq if mask[o.spec_index % len(mask)]]
+            rest = [o for o in objs if o not in sub]
+            hv = case["haves"]
+            haves = [o for o in rest if hv[o.spec_index % len(hv)]]
+            expected = {o.name: (o.type, o.data) for o in sub}
+            hint = case["hint"]
+            ids = [(o.name.hex().encode(), None if hint == "none" else (o.type, None if hint == "type" else b"p%d" % (o.spec_index % 3))) for o in sub]
+            buf = io.BytesIO()
+            kw = dict(delta_window_size=case["window"], deltify=case["deltify"], reuse_deltas=case["reuse"], compression_level=case["level"])
+            if haves or case["haves_given"]:
+                kw["other_haves"] = {o.name.hex().encode() for o in haves}
+            ok, v = _catch(lambda: write_pack_from_container(buf.write, store, ids, fmt, **kw))
+            if not ok:
+                j.exc("write", v, "write_pack_from_container")
+            elif sub:
+                entries, csum = v
+                pack = buf.getvalue()
+                ibuf = io.BytesIO()
+                ok, v = _catch(lambda: write_pack_index(ibuf, sorted((k, e[0], e[1]) for k, e in entries.items()), csum, version=case["idxv"]))
+                if not ok:
+                    j.exc("write-index", v, f"write_pack_index(version={case['idxv']})")
+                else:
+                    ext_all = {o.name: (o.type, o.data) for o in haves}
+                    try:
+                        ents, _ = ref.read_pack(pack, hl, ext_all)
+                        ext = {e.base: ext_all[e.base] for e in ents if e.pack_type == 7 and e.base not in expected and e.base in ext_all}
+                    except ref.FormatError:
+                        ext = None  # judged (and reported) by judge_pair below
+                    if ext:
+                        labels.append("thin-output")
+                    r = judge_pair(j, ctx, pack, ibuf.getvalue(), expected, case["idxv"], case["seed"], git=True, external=ext or None,
+                                   strict=len(sub) == len(objs))
+                    st = r[1] if r else None
+        finally:
+            _catch(store.close)
+    finally:
+        shutil.rmtree(d, ignore_errors=True)
+    labels += _case_labels(case, check, sub, st)
+    labels.append("reuse_deltas" if case["reuse"] else "no-reuse")
+    if case["deltify"]:
+        labels.append("deltify")
+    if any(s["ndelta"] for s in src_stats):
+        labels.append("source-packs-have-deltas")
+    if len(sub) < len(objs):
+        labels.append("subset")
+    nt = _nontrivial(case, sub, st)
+    ctx.case(_key(case), nontrivial=nt, labels=labels, sample=_sample(case) if nt else None)
+
+
+def reuse_strategy():
+    S = gen.strategies()
+    st = S["st"]
+
+    @st.composite
+    def case(draw):
+        hl = draw(st.sampled_from([20, 20, 20, 32]))
+        deltify = draw(st.sampled_from([False, None, None, True]))
+        specs = draw(S["specs"](profile=draw(st.sampled_from(["deltify", "deltify1"])) if deltify else "git", max_objs=12 if deltify else draw(st.sampled_from([8, 20, 40]))))
+        return dict(
+            hl=hl, specs=specs, order=_perm(st, draw, len(specs)), git=_git_opts(st, draw),
+            where=draw(st.one_of(st.just([0]), st.lists(st.sampled_from([0, 0, 1, 2]), min_size=1, max_size=6))),
+            mask=draw(st.one_of(st.just([1]), st.lists(st.sampled_from([1, 1, 0]), min_size=2, max_size=8))),
+            haves=draw(st.one_of(st.just([1]), st.lists(st.sampled_from([1, 1, 0]), min_size=1, max_size=8))), haves_given=draw(st.booleans()), hint=draw(st.sampled_from(["none", "type", "path"])),
+            reuse=draw(st.sampled_from([True, True, True, False])), deltify=deltify, window=draw(st.sampled_from([None, 0, 2, 10])),
+            level=_level(st, draw), idxv=2 if hl == 32 else draw(st.sampled_from([1, 2, 2, 3])), seed=draw(st.integers(0, 1 << 16)),
+        )
+
+    return case()
+
+
+# ---------------------------------------------------------------------------
+# check "idx": synthetic index tables (no pack) with offsets up to 2^63-1
+
+BIG_OFFSETS = [12, 13, 255, (1 << 31) - 1, 1 << 31, (1 << 31) + 1, (1 << 32) - 1, 1 << 32, (1 << 32) + 1, 1 << 40, (1 << 63) - 1]
+
+
+def run_idx(ctx, case, check="idx"):
+    from dulwich.pack import load_pack_index, load_pack_index_file, write_pack_index
+
+    hl = case["hl"]
+    fmt = _fmt(hl)
+    ver = case["idxv"]
+    j = Judge(ctx, check, case, hl)
+    ents = sorted({bytes(n): (bytes(n), off, crc) for n, off, crc in case["entries"]}.values())
+    csum = bytes(case["csum"])
+    buf = io.BytesIO()
+    ok, v = _catch(lambda: write_pack_index(buf, ents, csum, version=ver))
+    large = any(off >= 1 << 31 for _, off, _ in ents)
+    labels = [check, f"idx-v{ver}", f"idx:n={'0' if not ents else '1' if len(ents) == 1 else '2+'}"] + (["sha256"] if hl == 32 else [])
+    if large:
+        labels.append("large-offset")
+    unrepresentable = ver == 1 and any(off > 0xFFFFFFFF for _, off, _ in ents)
+    if unrepresentable:
+        labels.append("idx:v1-offset>32bit")
+        if ok:
+            try:
+                r = ref.read_idx(buf.getvalue(), hl)
+                bad = r["entries"] != [(n, o, None) for n, o, _ in ents]
+            except ref.FormatError:
+                bad = True
+            if bad:
+                j.fail("write", "v1-silently-truncates-offset", "write_pack_index(version=1) accepted an offset above 2^32-1 and wrote something else")
+    elif not ok:
+        j.exc("write", v, f"write_pack_index(version={ver})")
+    else:
+        raw = buf.getvalue()
+        if v != raw[-hl:]:
+            j.fail("write", "returned-checksum-wrong", "returned checksum is not the trailer")
+        try:
+            r = ref.read_idx(raw, hl)
+        except (ref.FormatError, struct.error) as e:
+            j.fail("idx", getattr(e, "kind", "struct-error"), f"independent reader rejects the index: {e}")
+            r = None
+        if r is not None:
+            if r["version"] != ver:
+                j.fail("idx", "wrong-version", f"asked for v{ver}, file is v{r['version']}")
+            if r["entries"] != [(n, o, c if ver != 1 else None) for n, o, c in ents]:
+                j.fail("idx", "entries-differ", "independent reader finds other entries than were written")
+            if r["pack_checksum"] != csum:
+                j.fail("idx", "pack-checksum-mismatch", "pack checksum not stored as given")
+            if ver in (1, 2):
+                if ref.write_idx(ents, csum, ver, hl) != raw:
+                    j.fail("idx", f"not-byte-identical-to-git-v{ver}", "differs from git's layout for these entries")
+                elif case.get("git"):
+                    out = cgit.out(["show-index"] + (["--object-format=sha256"] if hl == 32 else []), input=raw)
+                    rows = [(l.split()[1], int(l.split()[0])) for l in out.splitlines()]
+                    if rows != [(n.hex().encode(), o) for n, o, _ in ents]:
+                        raise HarnessError("git show-index disagrees with an index that is byte-identical to the reference writer's")
+        if not j.any_failed:
+            d = ctx.scratch.new("idx")
+            p = os.path.join(d, "x.idx")
+            with open(p, "wb") as f:
+                f.write(raw)
+            try:
+                if case["via"] == "path":
+                    ok, ix = _catch(lambda: load_pack_index(p, fmt))
+                else:
+                    ok, ix = _catch(lambda: load_pack_index_file("<mem>", io.BytesIO(raw), fmt))
+                if not ok:
+                    j.exc("load", ix, "load_pack_index")
+                else:
+                    try:
+                        _judge_loaded_index(j, ix, ents, csum, ver, hl, case["seed"])
+                    finally:
+                        _catch(ix.close)
+            finally:
+                shutil.rmtree(d, ignore_errors=True)
+    nt = len(ents) >= 2 and (large or ver in (1, 3) or hl == 32)
+    ctx.case(_key(case), nontrivial=nt, labels=labels, sample=_sample(case) if nt and large else None)
+
+
+def _judge_loaded_index(j, ix, ents, csum, ver, hl, seed):
+    ok, v = _catch(lambda: len(ix))
+    if not ok:
+        return j.exc("load:len", v, "len(index)")
+    if v != len(ents):
+        j.fail("load:len", "wrong", f"len(index)={v}, {len(ents)} entries written")
+    ok, v = _catch(lambda: [(bytes(a), b, c) for a, b, c in ix.iterentries()])
+    if not ok:
+        return j.exc("load:iterentries", v, "iterentries()")
+    if v != [(n, o, c if ver != 1 else None) for n, o, c in ents]:
+        j.fail("load:iterentries", "differs", "iterentries() != entries written")
+    ok, v = _catch(lambda: list(ix))
+    if not ok:
+        return j.exc("load:iter", v, "iter(index)")
+    if v != [n.hex().encode() for n, _, _ in ents]:
+        j.fail("load:iter", "differs", "iter(index) != sorted hex names")
+    for k, (n, o, c) in enumerate(ents):
+        key = n.hex().encode() if k % 2 else n
+        ok, v = _catch(lambda: ix.object_offset(key))
+        if not ok:
+            return j.exc("load:object_offset", v, f"object_offset({n.hex()})")
+        if v != o:
+            j.fail("load:object_offset", "wrong-large" if o >= 1 << 31 else "wrong", f"object_offset -> {v}, written {o}")
+            break
+    expected = {n: None for n, _, _ in ents}
+    for a in absent_ids(expected, hl, seed):
+        ok, v = _catch(lambda: ix.object_offset(a))
+        if ok or not isinstance(v, KeyError):
+            j.fail("load:object_offset-absent", "no-KeyError", f"object_offset of an absent name -> {v!r}"[:200])
+            break
+    ok, v = _catch(ix.get_pack_checksum)
+    if not ok:
+        return j.exc("load:get_pack_checksum", v, "get_pack_checksum()")
+    if v != csum:
+        j.fail("load:get_pack_checksum", "wrong", "get_pack_checksum() != checksum written")
+    ok, v = _catch(ix.check)
+    if not ok:
+        j.exc("load:check", v, "index.check()")
+
+
+def idx_strategy():
+    from hypothesis import strategies as st
+
+    @st.composite
+    def case(draw):
+        hl = draw(st.sampled_from([20, 20, 32]))
+        ver = 2 if hl == 32 else draw(st.sampled_from([1, 2, 2, 3]))
+        n = draw(st.sampled_from([0, 1, 2, 3, 8, 40]))
+        first = st.sampled_from([0x00, 0x00, 0x01, 0x7F, 0x80, 0xFE, 0xFF, 0xFF])
+        ents = []
+        offs = BIG_OFFSETS if draw(st.integers(0, 3)) else [x for x in BIG_OFFSETS if x <= 0xFFFFFFFF]
+        for i in range(n):
+            name = bytes([draw(first)]) + draw(st.binary(min_size=hl - 1, max_size=hl - 1))
+            off = draw(st.sampled_from(offs)) if draw(st.integers(0, 2)) else 12 + 7 * i
+            crc = draw(st.sampled_from([0, 1, 0x7FFFFFFF, 0x80000000, 0xFFFFFFFF, 0x12345678]))
+            ents.append((name, off, crc))
+        return dict(hl=hl, idxv=ver, entries=ents, csum=draw(st.binary(min_size=hl, max_size=hl)), via=draw(st.sampled_from(["path", "file"])),
+                    git=draw(st.integers(0, 3)) == 0, seed=draw(st.integers(0, 1 << 16)))
 
     return case()
 
@@ -680,6 +1462,12 @@ def selftest(ctx):
             r = ref.read_idx(gi, hl)
             if r["version"] != v or len(r["entries"]) != len(entries):
                 raise HarnessError("reference idx reader misreads git's index")
+            for pos in (len(gi) // 2, 1030):  # a damaged index must not pass the reference reader
+                try:
+                    ref.read_idx(gi[:pos] + bytes([gi[pos] ^ 1]) + gi[pos + 1:], hl)
+                except ref.FormatError:
+                    continue
+                raise HarnessError("reference idx reader accepts a damaged index")
         # large offsets: writer/reader agree with each other and with git show-index
         big = [(bytes([i]) * hl, off, i) for i, off in enumerate([12, (1 << 31) - 1, 1 << 31, (1 << 32) + 5, (1 << 63) - 1])]
         raw = ref.write_idx(big, b"\1" * hl, 2, hl)
@@ -693,18 +1481,39 @@ def selftest(ctx):
         shutil.rmtree(d, ignore_errors=True)
 
 
-def _part_write(ctx, n):
-    run_hypothesis(ctx, write_strategy(), lambda c, case: run_write(c, case), max_examples=n, shrink=True)
+CHECKS = {
+    "write": (run_write, write_strategy),
+    "records": (run_records, records_strategy),
+    "store": (run_store, lambda: records_strategy(store=True)),
+    "gitpack": (run_gitpack, gitpack_strategy),
+    "reuse": (run_reuse, reuse_strategy),
+    "idx": (run_idx, idx_strategy),
+}
+
+
+def _part(ctx, item):
+    name, n = item
+    fn, strat = CHECKS[name]
+    # quick tier: no shrinking (a deltifying case costs up to seconds); the smallest failing case per bucket is kept
+    import time  # evidence only (where the budget goes); never used by an oracle
+
+    t = time.time()
+    run_hypothesis(ctx, strat(), lambda c, case: fn(c, case), max_examples=n, shrink=ctx.thorough)
+    t = time.time() - t
+    ctx.extra[f"cpu_s_{name}"] = round(ctx.extra.get(f"cpu_s_{name}", 0) + t, 1)
+    ctx.extra.setdefault("slowest_shard_s", Counter())[f"{name}@{ctx.shard}"] = round(t, 1)
 
 
 def run(ctx):
     selftest(ctx)
     ctx.note("git_version", cgit.version())
-    ctx.parallel(_part_write, [ctx.scale(40, 1500)] * 16)
+    budget = dict(write=ctx.scale(32, 800), records=ctx.scale(32, 800), store=ctx.scale(16, 400), gitpack=ctx.scale(24, 600),
+                  reuse=ctx.scale(20, 500), idx=ctx.scale(60, 1500))
+    # one item per (check, shard): dealt round-robin, every worker runs one shard of every check
+    ctx.parallel(_part, [(name, n) for name, n in budget.items() for _ in range(16)])
 
 
 def replay(ctx, check, case):
-    if check == "write":
-        run_write(ctx, case)
-    else:
+    if check not in CHECKS:
         raise HarnessError(f"unknown check {check!r}")
+    CHECKS[check][0](ctx, case)
